@@ -79,9 +79,21 @@ func checkC09(c *Ctx) {
 		"Decides escaping per emission site, not the effect of text inside a safe comment on build constraints or //go: directives.")
 	c.Assume("the free-text field table (DESIGN A.6) lists the spec's free-text positions; enum values are not in the property's list and are reported as out of scope", "identifier manglers (pascalize, varname, snakize, …) produce identifier-safe text")
 	ev, _, gen := c.evalTemplates("")
-	exampleIsJSON := checkExampleIsJSON(c, gen)
+	exampleIsJSON := checkExampleIsJSON(c, "C09.R1.example-json", gen)
 
-	c.Rule("C09.R2.context-kind", "each emission of a free-text value in a Go-producing template sits in a lexical context for which its sanitiser chain is safe", 80)
+	checkContextKinds(c, "C09.R2.context-kind", ev, exampleIsJSON)
+
+	checkSanitisers(c, gen)
+	checkPostRender(c, gen)
+	// the embedded documents carry every free text of the spec inside a raw string: both pass the escaper, always
+	checkEmbeddedStores(c, "C09.R3.embedded-escaped", gen)
+	checkPrintTags(c, gen)
+}
+
+// checkContextKinds: every emission of a free-text value, in every instantiation, against the
+// context × kind matrix.
+func checkContextKinds(c *Ctx, rule string, ev *tmpl.Evaluator, exampleIsJSON bool) {
+	c.Rule(rule, "each emission of a free-text value in a Go-producing template sits in a lexical context for which its sanitiser chain is safe", 80)
 	type siteKey struct{ file, pipe, ctx, kind string }
 	seen := map[string]bool{}
 	n, outOfScope := 0, 0
@@ -124,19 +136,14 @@ func checkC09(c *Ctx) {
 		}
 		seen[key] = true
 		if bad == "" {
-			c.Ok("C09.R2.context-kind", key, e.Tree.PosStr(e.Pos), fmt.Sprintf("%s value in %s", kind, strings.Join(e.Context, "+")))
+			c.Ok(rule, key, e.Tree.PosStr(e.Pos), fmt.Sprintf("%s value in %s", kind, strings.Join(e.Context, "+")))
 		} else {
-			c.Bad("C09.R2.context-kind", key, e.Tree.PosStr(e.Pos), fmt.Sprintf("free text %s.%s is emitted as a %s value inside a Go %s: %s", o.Owner, o.Field, kind, bad, whyUnsafe(bad, kind)))
+			c.Bad(rule, key, e.Tree.PosStr(e.Pos), fmt.Sprintf("free text %s.%s is emitted as a %s value inside a Go %s: %s", o.Owner, o.Field, kind, bad, whyUnsafe(bad, kind)))
 		}
 	}
 	c.Analysed("free-text emissions", n)
 	c.Analysed("enum emissions (out of the property's scope)", outOfScope)
 
-	checkSanitisers(c, gen)
-	checkPostRender(c, gen)
-	// the embedded documents carry every free text of the spec inside a raw string: both pass the escaper, always
-	checkEmbeddedStores(c, "C09.R3.embedded-escaped", gen)
-	checkPrintTags(c, gen)
 }
 
 func whyUnsafe(ctx string, kind tmpl.Kind) string {
@@ -517,8 +524,7 @@ func onlyPrint(funcs []string) bool {
 
 // checkExampleIsJSON: every store to GenSchema.Example is the empty string or
 // strings.Trim(<asJSON / json.Marshal result>, "\"") — JSON text without raw newlines.
-func checkExampleIsJSON(c *Ctx, gen *packages.Package) bool {
-	rule := "C09.R1.example-json"
+func checkExampleIsJSON(c *Ctx, rule string, gen *packages.Package) bool {
 	c.Rule(rule, "GenSchema.Example is only ever the empty string or JSON text produced by asJSON/json.Marshal (so it holds no raw newline)", 1)
 	info := gen.TypesInfo
 	okAll, n := true, 0
